@@ -66,7 +66,7 @@ package pogreb
 //@   requires inv: db == theDB() && key == theKey() && dbFull(db) && idxInLog(db) && idxFreeOK(db.index) && db.index.level < 31
 //@   requires slot: slotInSeg(db.datalog, sl)
 //@   ensures inv: err == nil ==> dbInv(db)
-//@   ensures [C01] inv-index: err == nil ==> dbFull(db) && idxFreeOK(db.index)
+//@   ensures [C01] inv-index: err == nil ==> dbFull(db) && idxFreeOK(db.index) && idxInLog(db)
 //@   ensures log: segmentsUntouched(db.datalog)
 //@   modifies any(index).freeBucketOffs, any(index).level, any(index).numKeys, any(index).numBuckets, any(index).splitBucketIdx, any(segmentMeta).DeletedKeys, any(segmentMeta).DeletedBytes, any(file).size, any(slotWriter).bucket, any(slotWriter).slotIdx, any(slotWriter).prevBuckets, any(bucketHandle).bucket, elems(*bucketHandle), elems(int64), fLen, fDur, fData
 
@@ -102,7 +102,7 @@ package pogreb
 //@   ensures [C16] rejected-untouched: len(key) > 65535 || len(value) > 536870912 ==> fData == old(fData) && fLen == old(fLen) && fDur == old(fDur) && dirFid == old(dirFid) && db.index.numKeys == old(db.index.numKeys) && segmentsUntouched(db.datalog)
 //@   ensures [C06] synced: err == nil && db.syncWrites ==> dlAllDurable(db.datalog)
 //@   ensures inv: err == nil ==> dbInv(db)
-//@   ensures [C01] inv-index: err == nil ==> dbFull(db) && idxFreeOK(db.index)
+//@   ensures [C01] inv-index: err == nil ==> dbFull(db) && idxFreeOK(db.index) && idxInLog(db)
 //@   ensures unlocked: lockSt[fieldaddr(db, mu)] == 0
 //@   flag lossless
 //@   modifies *
